@@ -63,7 +63,7 @@ def make_driver():
         )
 
     MISSING = "/nonexistent/vf-missing-exe"
-    OPTS = {"strfiles": False}     # (prep's `self` is the bound job, not the driver: the switch lives in this closure)
+    OPTS = {"strfiles": False, "plain": False}     # (prep's `self` is the bound job, not the driver: the switch lives in this closure)
 
     def _cmds(exe, key, planroot, arg, broken=()):
         # `key` in broken: no command of the unit can be started; "late:"+key: only the SECOND command cannot (the first one has run by then)
@@ -96,6 +96,8 @@ def make_driver():
             txt = out.files["result.txt"].decode().strip()
             if isinstance(M, ml.chem.ensemble.Conformer):
                 return txt
+            if OPTS["plain"]:
+                return plain_value(txt)      # a plain (possibly falsy) value for a generic Collection
             res = ml.Molecule(M)
             res.attrib["result"] = txt
             return res
@@ -122,6 +124,8 @@ def make_driver():
             txt = "R" + out.stdouts["calc"].strip()[1:]
             if isinstance(M, ml.chem.ensemble.Conformer):
                 return txt
+            if OPTS["plain"]:
+                return plain_value(txt)
             res = ml.Molecule(M)
             res.attrib["result"] = txt
             return res
@@ -138,6 +142,11 @@ def make_driver():
     drv = CDriver(check_exe=True)
     drv.vf_opts = OPTS
     return drv
+
+
+def plain_value(txt):
+    """result stored in a generic Collection: the text, or the empty string for results of a FIRST attempt (a valid, falsy value)"""
+    return "" if txt.endswith(" 1") else txt
 
 
 def outcome(plan, n):
@@ -193,6 +202,12 @@ def check(r) -> list[Fail]:
                     f.write(it["plans"][j % len(it["plans"])])
         plan = {u: it["plans"][j % len(it["plans"])] for k, it in zip(keys, r["items"]) for j, u in enumerate(units[k])}
         # ---- destination (possibly pre-populated)
+        plain = bool(r.get("plain")) and not vec
+        if plain:
+            from molli.storage import Collection, UkvCollectionBackend
+
+            def Lib(p_, readonly=False):     # noqa: a generic Collection of strings instead of a molecule library
+                return Collection(p_, UkvCollectionBackend, value_encoder=lambda s_: s_.encode(), value_decoder=lambda b_: b_.decode(), readonly=readonly)
         dst_path = os.path.join(d, "dst." + ("clib" if vec else "mlib"))
         dst = Lib(dst_path, readonly=False)
         atexit.unregister(dst._backend.flush)
@@ -203,7 +218,10 @@ def check(r) -> list[Fail]:
             with dst.writing():
                 for k in dict.fromkeys(pre + foreign):
                     m = ml.Molecule(["N"], name=k, coords=[[0.0, 0.0, 0.0]])
-                    if vec:
+                    if plain:
+                        dst[k] = "PRE " + k
+                        model_dst[k] = "PRE " + k
+                    elif vec:
                         e = ml.ConformerEnsemble(m, n_conformers=1, coords=[[[0.0, 0.0, 0.0]]])
                         e.attrib["results"] = ["PRE " + k]
                         dst[k] = e
@@ -236,6 +254,15 @@ def check(r) -> list[Fail]:
                     if os.path.exists(p):
                         os.unlink(p)
                     cache.pop(u, None)
+                elif ev[0] == "truncate":
+                    u = us[ev[1] % len(us)]
+                    p = os.path.join(outdir, u + ".out")
+                    if os.path.exists(p):
+                        # the runner was killed (or the disk filled up) while it wrote this output: half a file, or an empty one
+                        data = open(p, "rb").read()
+                        with open(p, "wb") as fh:
+                            fh.write(data[: len(data) // 2] if ev[1] % 2 else b"")
+                        cache.pop(u, None)
                 elif ev[0] == "pollute" and len(us) >= 2:
                     a, b = us[ev[1] % len(us)], us[ev[2] % len(us)]
                     pa, pb = os.path.join(outdir, a + ".out"), os.path.join(outdir, b + ".out")
@@ -255,6 +282,7 @@ def check(r) -> list[Fail]:
             broken = sorted({all_units[i % len(all_units)] for i in run.get("broken", [])})   # units whose executable cannot be started in this run
             late = sorted({all_units[i % len(all_units)] for i in run.get("late", [])} - set(broken))   # units whose SECOND command cannot be started
             drv.vf_opts["strfiles"] = bool(r.get("strfiles"))
+            drv.vf_opts["plain"] = plain
             job = getattr(drv, jobname)
             before_counts = dict(count)
             try:
@@ -304,7 +332,7 @@ def check(r) -> list[Fail]:
                     else:
                         ok_all = False
                 if ok_all:
-                    model_dst[k] = texts if vec else texts[0]
+                    model_dst[k] = texts if vec else (plain_value(texts[0]) if plain else texts[0])
             # ---- observations
             for u in count:
                 p = os.path.join(planroot, u + ".count")
@@ -328,7 +356,7 @@ def check(r) -> list[Fail]:
                         fails.append(Fail("destination-lacks-successful-item", f"run {ri} ({jobname}): {miss}"))
                 for k in sorted(got_keys & set(model_dst)):
                     obj = dst[k]
-                    got = list(obj.attrib.get("results")) if vec else obj.attrib.get("result")
+                    got = obj if plain else list(obj.attrib.get("results")) if vec else obj.attrib.get("result")
                     if got != model_dst[k]:
                         kind = "foreign-key-altered" if k in foreign else "prepopulated-key-altered" if k in pre else "wrong-result-stored"
                         fails.append(Fail(f"destination-content-wrong:{kind}", f"run {ri} ({jobname}): {k}: stored {got!r}, expected {model_dst[k]!r}"))
@@ -375,6 +403,8 @@ def classify(r):
     if any(run.get("new_dest") for run in r["runs"][1:]):
         lab.append("fresh_destination_same_cache")
     lab.append("input_files=str" if r.get("strfiles") else "input_files=bytes")
+    if r.get("plain") and not r["vec"]:
+        lab.append("destination=generic_Collection_with_falsy_values")
     if r.get("dotkeys"):
         lab.append("keys_with_dots")
     if r.get("relcache"):
@@ -391,7 +421,7 @@ def classify(r):
 def strat(tier):
     planv = st.sampled_from(["ok", "ok", "fail", "okat2", "okat3", "nofile", "prepfail", "prepfail1"])
     item = st.fixed_dictionaries({"nconf": st.integers(1, 3), "plans": st.lists(planv, min_size=1, max_size=3)})
-    ev = st.one_of(st.tuples(st.just("delete"), st.integers(0, 20)).map(list), st.tuples(st.just("pollute"), st.integers(0, 20), st.integers(0, 20)).map(list))
+    ev = st.one_of(st.tuples(st.just("delete"), st.integers(0, 20)).map(list), st.tuples(st.just("truncate"), st.integers(0, 20)).map(list), st.tuples(st.just("pollute"), st.integers(0, 20), st.integers(0, 20)).map(list))
     run = st.fixed_dictionaries({"arg": st.sampled_from([0, 0, 0, 1, 2]), "farg": st.sampled_from([0, 0, 0, 1]), "earg": st.sampled_from([0, 0, 0, 1]), "cache_events": st.lists(ev, max_size=2), "new_dest": st.sampled_from([False, False, True]), "lax": st.sampled_from([False, False, False, True]),
                                  "broken": st.one_of(st.just([]), st.just([]), st.lists(st.integers(0, 20), min_size=1, max_size=2)),
                                  "late": st.one_of(st.just([]), st.just([]), st.lists(st.integers(0, 20), min_size=1, max_size=2))})
@@ -400,7 +430,7 @@ def strat(tier):
         "items": st.lists(item, min_size=2, max_size=4 if tier == "quick" else 5),
         "pre_source_keys": st.lists(st.integers(0, 9), max_size=2), "n_foreign": st.sampled_from([0, 0, 1, 2]),
         "runs": st.lists(run, min_size=2, max_size=3 if tier == "quick" else 4),
-        "posargs": st.booleans(), "strfiles": st.booleans(), "dotkeys": st.booleans(), "relcache": st.booleans(),
+        "posargs": st.booleans(), "strfiles": st.booleans(), "dotkeys": st.booleans(), "relcache": st.booleans(), "plain": st.sampled_from([False, False, True]),
     })
 
 
